@@ -2,6 +2,48 @@
 (C01, C05, C06, C10, ...)."""
 import re, random, collections
 import docgen, parseharness as P
+from common import w_str, w_bool, w_list
+
+
+def mk_state_case(ctx, state, s, tol, origin):
+    """a parse that starts from the walker's default state updated by one sub_context(**state) call"""
+    import tokharness as T
+    upd = w_list(list(state.items()), lambda kv: [T.UPDATE_TAG[kv[0]]] + T.w_value(kv[0], kv[1]))
+    wire = [102] + ([0] if ctx == 'default' else [1] + docgen.ctx_wire(ctx)) + upd + w_str(s) + w_bool(tol)
+    return {'wire': wire, 'desc': {'ctx': ctx, 's': s, 'tolerant': tol, 'origin': origin, 'state': state}, 'nt': None}
+
+
+# parsing-state configurations other than the walker's default (one sub_context call)
+STATES = [
+    {'latex_inline_math_delimiters': [['$', '$'], ['<<', '>>']]},
+    {'latex_inline_math_delimiters': [['$`', '`$'], ['\\(', '\\)']], 'latex_display_math_delimiters': [['$$', '$$']]},
+    {'latex_display_math_delimiters': [['[[', ']]'], ['$$', '$$']], 'latex_inline_math_delimiters': [['$', '$']]},
+    {'latex_group_delimiters': [['{', '}'], ['[', ']']]},
+    {'enable_comments': False}, {'enable_math': False}, {'enable_groups': False}, {'enable_specials': False},
+    {'enable_environments': False}, {'enable_macros': False}, {'enable_double_newline_paragraphs': False},
+    {'macro_escape_char': '!', 'comment_start': '#'}, {'in_math_mode': True, 'math_mode_delimiter': '$'},
+    {'in_math_mode': True}, {'forbidden_characters': '&~'},
+]
+STATE_SYMS = ['<<', '>>', '$`', '`$', '[[', ']]', '!m', '!begin{e}', '!end{e}', '#c\n', '!', '#']
+
+
+def state_stream(rnd, n, contexts=('default', 'custom'), modes=(False, True)):
+    out = []
+    for _ in range(n):
+        ctx = rnd.choice(contexts)
+        st = rnd.choice(STATES)
+        syms = docgen.symbols_for(ctx) + STATE_SYMS
+        s = docgen.soup(rnd, syms, 1, 9) if rnd.random() < 0.6 else docgen.gen_doc(rnd, ctx)
+        for tol in modes:
+            out.append(mk_state_case(ctx, st, s, tol, 'state'))
+    return out
+
+
+def _state_kwargs(state):
+    kw = {}
+    for k, v in (state or {}).items():
+        kw[k] = [tuple(x) for x in v] if k.startswith('latex_') else v
+    return kw
 
 
 def mk_case(ctx, s, tol, origin):
@@ -15,7 +57,10 @@ def mk_case(ctx, s, tol, origin):
 
 
 def case_from_desc(d):
-    c = mk_case(d['ctx'], d['s'], d['tolerant'], d.get('origin', 'replay'))
+    if d.get('state'):
+        c = mk_state_case(d['ctx'], d['state'], d['s'], d['tolerant'], d.get('origin', 'replay'))
+    else:
+        c = mk_case(d['ctx'], d['s'], d['tolerant'], d.get('origin', 'replay'))
     for k in ('wkw', 'base', 'fault', 'at'):
         if k in d:
             c['desc'][k] = d[k]
@@ -92,7 +137,7 @@ def impl_parse(c):
     d = c['desc']
     if d['ctx'] in docgen.UNMODELLED_CONTEXTS:
         return 'BADIN'
-    return P.parse_top(d['s'], d['tolerant'], docgen.make_db(d['ctx']), d.get('wkw'))
+    return P.parse_top(d['s'], d['tolerant'], docgen.make_db(d['ctx']), d.get('wkw'), _state_kwargs(d.get('state')))
 
 
 # ---- projections of the dump line -------------------------------------------------
@@ -119,8 +164,11 @@ def real_parse(d):
     kw = {} if db is None else {'latex_context': db}
     kw.update(d.get('wkw') or {})          # position-reporting options of the walker (None = "use the default")
     w = LatexWalker(d['s'], tolerant_parsing=d['tolerant'], **kw)
+    pkw = {}
+    if d.get('state'):
+        pkw['parsing_state'] = w.make_parsing_state().sub_context(**_state_kwargs(d['state']))
     try:
-        nl, _ = w.parse_content(LatexGeneralNodesParser())
+        nl, _ = w.parse_content(LatexGeneralNodesParser(), **pkw)
     except LatexWalkerParseError as e:
         return ('err', e, w)
     except Exception as e:
